@@ -60,7 +60,7 @@ def case(draw):
     dot = draw(st.sampled_from([None, None, None, "force", "fallback", "skip"]))
     if dot == "skip" and style_opt:
         style_opt = None  # mutually exclusive
-    template = draw(st.sampled_from([None, None, None, "prose", "nocontrib", "commented", "droplic", "dropcop", "dropboth"]))
+    template = draw(st.sampled_from([None, None, None, "prose", "nocontrib", "commented", "droplic", "dropcop", "dropboth", "cdroplic", "cdropcop", "cdropboth"]))
     binary = draw(st.integers(0, 9)) == 0
     existing = None
     if draw(st.integers(0, 2)) == 0:
@@ -153,8 +153,8 @@ def check(ctx, c, table_walk=False):
             merged = existing and not c["no_replace"] and ((to_dotlicense and not c["style"]) or (not to_dotlicense and existing["where"] == "own" and (not c["style"] or c["style"] == fstyle)))
             carry_lic = {AN.norm_expr(x) for x in req["licences"]} | (want_lic if merged else set())
             carry_cop = AN.requested_notices(req) | (want_cop if merged else set())
-            drops_lic = tname in ("droplic", "dropboth") and carry_lic
-            drops_cop = tname in ("dropcop", "dropboth") and carry_cop
+            drops_lic = tname in ("droplic", "dropboth", "cdroplic", "cdropboth") and carry_lic
+            drops_cop = tname in ("dropcop", "dropboth", "cdropcop", "cdropboth") and carry_cop
             if (drops_lic or drops_cop) and success:
                 ctx.fail(c, f"template {tname} cannot carry {'licences ' if drops_lic else ''}{'copyright ' if drops_cop else ''}yet annotate reported success: {res.out[:300]!r}")
             if success is False:
